@@ -100,6 +100,12 @@ def finish_case(rng, P, root=None):
         pre = (['t ctx new rg', 't ctx enter 0'] if ctx else []) + \
               [f"t bw {t0} {show_ints(P.tshape[t0])} {show_floats(gen_dag.rand_data(rng, P.tshape[t0], -2, 2))}"] + (['t ctx exit 0'] if ctx else []) + \
               [f't zero {nd["outs"][0]}' for nd in P.nodes if nd['kind'] == 'leaf' and req.get(nd['outs'][0])]
+    if rng.chance(.2):
+        # a call that is REJECTED after its traversal (upstream gradient of the wrong shape) from the root or an interior tensor
+        # comes first: whatever bookkeeping it left behind must not change what the accepted call computes
+        tb = rng.pick(interior + [root])
+        bad = tuple(P.tshape[tb]) + (2,)
+        pre = [f"t bw {tb} {show_ints(bad)} {show_floats(gen_dag.rand_data(rng, bad, -2, 2))}"] + pre
     bw_lines = pre + [bw]
     after = [f't grad {k}' for k in range(nt)] + [f't flags {k}' for k in range(nt)]
     uses = {}
